@@ -63,7 +63,15 @@ func setupFS(base string, create bool) error {
 			delete(fsl.decoys, p)
 			return nil
 		}
-		return os.WriteFile(p, []byte(decoySrc), 0o644)
+		// the decoy names the place it was found in (working directory / import directory / elsewhere)
+		where := "ELSEWHERE"
+		switch {
+		case strings.HasPrefix(p, filepath.Join(base, "w")+string(filepath.Separator)):
+			where = "CWD-TREE"
+		case strings.HasPrefix(p, filepath.Join(base, "i")+string(filepath.Separator)):
+			where = "IMPORTDIR-TREE"
+		}
+		return os.WriteFile(p, []byte("export \"DECOY-"+where+"\"\n"), 0o644)
 	}
 	if create {
 		for _, d := range []string{fsl.cwd, fsl.imp} {
@@ -190,10 +198,22 @@ func runFile(c Case) (fails []fail, obs string, ineffective bool) {
 		} else if o.class != "compile-error" || !strings.Contains(o.text, "module '"+name+"' not found") {
 			add("wrong-error", "want compile error \"module '"+name+"' not found\", got "+o.class+" "+snap+" "+tg.FirstLine(o.text))
 		}
-	default: // file import enabled, name not in the map: the decoy must be what is found (sanity of the decoys)
-		if !(o.class == "ok" && snap == "string:\"DECOY\"") {
+	default: // file import enabled, name not in the map: the decoy must be what is found (sanity of the decoys),
+		// and it is the one below the script's import directory (the working directory when none is set),
+		// also when the import expression stands in a module taken from the module map
+		want := "CWD-TREE"
+		if filepath.IsAbs(name) {
+			want = "ELSEWHERE"
+		}
+		if c.SetDir {
+			want = "IMPORTDIR-TREE" // every name, also an absolute one, is taken below the import directory
+		}
+		switch {
+		case !(o.class == "ok" && decoyLoaded):
 			ineffective = true
 			obs += ":DECOY-NOT-LOADED"
+		case snap != "string:\"DECOY-"+want+"\"":
+			add("file-resolved-in-wrong-directory", "expected the file below "+want+", got "+snap)
 		}
 	}
 	return
